@@ -4,6 +4,24 @@
  * three-register table (guard u16, register under test, guard u16) in one
  * exact-size area.  Reference: regtab.h (octet image, IEEE class by bit
  * pattern, typed constraint comparison).
+ *
+ * Further dimensions (strengthening round):
+ *   S  histories of the caller's value object: the RegisterValue handed to
+ *      set/set_unsafe (and the one handed to get as destination) held
+ *      something else before -- a fill pattern, or a value of a wider type
+ *      (assigned, or fetched with register_get from another table) -- so that
+ *      the octets of the union outside the active member and the padding are
+ *      not zero.  Crossed with bound/default objects of the register entry
+ *      that carry the same stale octets.
+ *   G  area geometries: 1..4 areas, the register under test in every area
+ *      position, every subset of the other areas empty (no register), so
+ *      that empty areas occur leading, in the middle, trailing and combined.
+ *   H  table histories: sequences of successful and failing register_init
+ *      calls (eight ways to fail, one in the other byte order) ending in a successful one, followed by one
+ *      other call of the register API (sanitise, block access, bit
+ *      operations, iteration ..., also with failing area callbacks) before
+ *      the sets under test: nothing may leak from an earlier call into the
+ *      decision of a later set.
  */
 #include "mc.h"
 #include "regtab.h"
@@ -11,6 +29,16 @@
 #include <float.h>
 
 #define MAXV 700
+
+#define BOUND_QUICK                                                                                                              \
+    "8 types x LE/BE x mem/cb x constraint configurations x (handles, type mismatches, all 16-bit values, ordered pairs over the " \
+    "closed value set; value objects with 4 fill patterns / 24 previous wider values assigned / 12 fetched with register_get, x "   \
+    "entry bounds clean/with the same past) + 49 area geometries (1..4 areas, register in every area, every subset of the others "  \
+    "empty) x register area mem/cb x load/skip defaults x 6 styles of the other areas x register between two guards / alone in its area x 6 constraint kinds x init histories {ok; ok,ok} + 6 geometries x all init histories of <= 2 "   \
+    "steps over 10 step kinds x 25 intervening API calls"
+#define BOUND_THOROUGH                                                                                                           \
+    BOUND_QUICK " + all 16-bit values in 3 stale objects + geometries x (all constraint configurations | all gap patterns) "     \
+                "+ init histories of <= 3 steps + all 2^32 patterns of u32/s32/f32 under a range constraint x LE/BE"
 
 struct cfg {
     int ckind;
@@ -57,6 +85,14 @@ f64bits(double d)
 static void
 make_values(RegisterType t, const struct cfg *c)
 {
+    /* the set depends on the type and the two bounds only: keep the last one */
+    static int have_t = -1;
+    static uint64_t have_lo, have_hi;
+    if (have_t == (int)t && have_lo == ref_bits(t, c->lo) && have_hi == ref_bits(t, c->hi))
+        return;
+    have_t = (int)t;
+    have_lo = ref_bits(t, c->lo);
+    have_hi = ref_bits(t, c->hi);
     nV = 0;
     const uint64_t m = mask_of(t);
     const unsigned w = ref_words(t) * 16;
@@ -125,12 +161,16 @@ make_values(RegisterType t, const struct cfg *c)
     }
 }
 
-/* constraint configurations per type */
+/* constraint configurations per type; the ascending bound menu of the last
+ * call stays available in cfgB[0..cfgnb) */
+static RegisterValueU cfgB[8];
+static int cfgnb;
+
 static int
 make_cfgs(RegisterType t, struct cfg *out)
 {
     int n = 0;
-    RegisterValueU B[8];
+    RegisterValueU *const B = cfgB;
     int nb = 0;
     if (type_is_float(t)) {
         const double fb[] = { -1.0e30, -1.5, 0.0, 1.5, 123.0, 1.0e30 };
@@ -164,12 +204,61 @@ make_cfgs(RegisterType t, struct cfg *out)
         for (int j = i; j < nb; j += 3)
             out[n++] = (struct cfg){ K_RANGE, B[i], B[j], B[i] };
     out[n++] = (struct cfg){ K_CB, vu_zero(), vu_zero(), vu_zero() };
+    cfgnb = nb;
     return n;
 }
 
+/* one representative configuration per constraint kind (blocks G and H) */
+static int
+pick_cfgs(RegisterType t, struct cfg *out)
+{
+    static struct cfg all[64];
+    (void)make_cfgs(t, all);
+    const RegisterValueU *B = cfgB;
+    const int nb = cfgnb;
+    int n = 0;
+    out[n++] = (struct cfg){ K_NONE, vu_zero(), vu_zero(), B[nb / 2] };
+    out[n++] = (struct cfg){ K_FAIL, vu_zero(), vu_zero(), B[nb / 2] };
+    out[n++] = (struct cfg){ K_MIN, B[2], vu_zero(), B[nb - 1] };
+    out[n++] = (struct cfg){ K_MAX, vu_zero(), B[3], B[0] };
+    out[n++] = (struct cfg){ K_RANGE, B[2], B[5], B[2] };
+    out[n++] = (struct cfg){ K_CB, vu_zero(), vu_zero(), vu_zero() };
+    return n;
+}
+
+/* ---- the table in use and the register under test inside it ------------------ */
+
 static struct tab tb;
-static unsigned sz;          /* words of the register under test */
-static RegisterAtom snap[8];
+static unsigned sz;            /* words of the register under test */
+static RegisterHandle rut_h;   /* its handle */
+static int rut_a;              /* the area it lives in */
+static unsigned rut_off;       /* its word offset inside that area */
+static bool area_pop[RT_MAXA]; /* the area holds registers (every word of a populated area belongs to one) */
+static RegisterAtom before_w[RT_MAXW];
+
+/* snapshot of all area storage into before_w (plain loops: for a handful of
+ * words the sanitizer's memcpy/memcmp interceptors cost more than the copy) */
+static inline void
+snap(void)
+{
+    size_t k = 0;
+    for (int i = 0; i < tb.s.na; ++i) {
+        const RegisterAtom *w = tb.store[i];
+        const uint32_t n = tb.s.a[i].size;
+        for (uint32_t j = 0; j < n; ++j)
+            before_w[k++] = w[j];
+    }
+}
+
+static void
+rut_simple(void)
+{
+    rut_h = 1;
+    rut_a = 0;
+    rut_off = 1;
+    memset(area_pop, 0, sizeof area_pop);
+    area_pop[0] = true;
+}
 
 static const char *
 acc(RegisterAccessCode c)
@@ -178,19 +267,31 @@ acc(RegisterAccessCode c)
     return (unsigned)c < 8 ? n[c] : "?";
 }
 
+/* storage against the snapshot in before_w.  regimg == NULL: every word of
+ * every area as before ("leaving storage unchanged").  Otherwise: the words
+ * of the register under test hold regimg and the words of every other
+ * register are as before (words of areas without registers are nobody's
+ * value; the statement does not speak about them after an accepted set). */
 static bool
-image_is(const unsigned char *regimg, const char *clause, const char *what)
+storage_is(const unsigned char *regimg, const char *clause, const char *what)
 {
-    /* guards */
-    RegisterAtom g0 = tb.store[0][0], g1 = tb.store[0][1 + sz];
-    if (g0 != 0x1111 || g1 != 0x2222) {
-        mc_fail(clause, "%s: neighbouring words changed (%04x, %04x)", what, g0, g1);
-        return false;
-    }
-    if (memcmp(tb.store[0] + 1, regimg, sz * 2) != 0) {
-        mc_fail(clause, "%s: register words differ from the expected octet image", what);
-        return false;
-    }
+    size_t k = 0;
+    for (int i = 0; i < tb.s.na; ++i)
+        for (uint32_t j = 0; j < tb.s.a[i].size; ++j, ++k) {
+            const RegisterAtom w = tb.store[i][j];
+            if (regimg != NULL && i == rut_a && j >= rut_off && j < rut_off + sz) {
+                RegisterAtom x;
+                memcpy(&x, regimg + 2 * (j - rut_off), 2);
+                if (w != x) {
+                    mc_fail(clause, "%s: register words differ from the expected octet image (word %u holds %04x)", what,
+                            (unsigned)(j - rut_off), w);
+                    return false;
+                }
+            } else if ((regimg == NULL || area_pop[i]) && w != before_w[k]) {
+                mc_fail(clause, "%s: word %u of area %d changed (%04x -> %04x)", what, (unsigned)j, i, before_w[k], w);
+                return false;
+            }
+        }
     if (tb.cb_oob) {
         mc_fail("C01/area-bounds", "%s: area callback asked for words outside the area", what);
         tb.cb_oob = 0;
@@ -199,24 +300,167 @@ image_is(const unsigned char *regimg, const char *clause, const char *what)
     return true;
 }
 
-/* one set (checked or not) of pattern `bits` typed vt, from the current
- * storage; returns true when everything agreed */
-static bool
-one_set(RegisterType rt, const struct rspec *rs, RegisterType vt, uint64_t bits, bool checked, bool *accepted_out)
+/* ---- value objects with a past --------------------------------------------- */
+
+struct stale {
+    RegisterValue img;  /* what the object held before it is reused */
+    int width;          /* words of the type it held (0: a fill pattern, applies to every register type) */
+    char name[48];
+};
+
+#define MAXST 96
+static struct stale ST[MAXST];
+static int nST;
+
+static void
+vu_assign(RegisterValueU *u, RegisterType t, uint64_t bits)
 {
-    unsigned char before[8], want[8];
-    memcpy(before, tb.store[0] + 1, sz * 2);
+    switch (t) {
+    case REG_TYPE_UINT16: u->u16 = (uint16_t)bits; break;
+    case REG_TYPE_SINT16: u->s16 = (int16_t)(uint16_t)bits; break;
+    case REG_TYPE_UINT32: u->u32 = (uint32_t)bits; break;
+    case REG_TYPE_SINT32: u->s32 = (int32_t)(uint32_t)bits; break;
+    case REG_TYPE_UINT64: u->u64 = bits; break;
+    case REG_TYPE_SINT64: u->s64 = (int64_t)bits; break;
+    case REG_TYPE_FLOAT32: { uint32_t x = (uint32_t)bits; memcpy(&u->f32, &x, 4); break; }
+    case REG_TYPE_FLOAT64: memcpy(&u->f64, &bits, 8); break;
+    default: u->u64 = bits; break; /* the tag "invalid" names no member */
+    }
+}
+
+/* the caller's object: what it held before (st; NULL = all octets zero), then
+ * the type tag and the member of that type are assigned */
+static RegisterValue
+mkval(const RegisterValue *st, RegisterType vt, uint64_t bits)
+{
     RegisterValue v;
-    memset(&v, 0, sizeof v);
+    if (st != NULL)
+        memcpy(&v, st, sizeof v);
+    else
+        memset(&v, 0, sizeof v);
     v.type = vt;
-    v.value = ref_from_bits(vt, bits);
+    vu_assign(&v.value, vt, bits);
+    return v;
+}
+
+/* a bound / default object of a register entry with the same past */
+static RegisterValueU
+vu_over(const RegisterValue *st, RegisterType t, RegisterValueU clean)
+{
+    RegisterValueU u = st->value;
+    vu_assign(&u, t, ref_bits(t, clean));
+    return u;
+}
+
+static void
+add_stale(const RegisterValue *img, int width, const char *fmt, ...) __attribute__((format(printf, 3, 4)));
+static void
+add_stale(const RegisterValue *img, int width, const char *fmt, ...)
+{
+    if (nST >= MAXST)
+        mc_broken("stale table too small");
+    struct stale *s = &ST[nST];
+    memcpy(&s->img, img, sizeof s->img);
+    s->width = width;
+    va_list ap;
+    va_start(ap, fmt);
+    vsnprintf(s->name, sizeof s->name, fmt, ap);
+    va_end(ap);
+    nST++;
+}
+
+static void
+make_stales(void)
+{
+    RegisterValue v;
+    nST = 0;
+    static const unsigned char fills[] = { 0xff, 0xa5, 0x80, 0x01 };
+    for (unsigned i = 0; i < sizeof fills; ++i) {
+        memset(&v, fills[i], sizeof v);
+        add_stale(&v, 0, "fill-%02x", fills[i]);
+    }
+    /* a value of a wider type was assigned to the object (starting from an
+     * all-zero object).  u32/u64 stand for s32/s64 as well: the octets are the
+     * same and the type tag is overwritten on reuse. */
+    static const uint32_t p32[] = { 0xffffffffu, 0x80000000u, 0x7fffffffu, 0x00010000u, 0x01234567u };
+    static const uint32_t pf32[] = { 0x7fc00000u, 0x7f800000u, 0xbf800000u, 0x00000001u, 0x7149f2cau /* 1e30 */ };
+    static const uint64_t p64[] = { ~0ull, 1ull << 63, ~0ull >> 1, 0x0123456789abcdefull, 1ull << 32, 1ull << 16, 0x00000000ffff0000ull, 0xffffffff00000000ull };
+    static const uint64_t pf64[] = { 0x7ff8000000000000ull, 0x7ff0000000000000ull, 0xbff0000000000000ull, 1ull, 0x7e37e43c8800759cull /* 1e300 */, 0x3ff0000000000001ull };
+    for (unsigned i = 0; i < sizeof p32 / sizeof *p32; ++i) {
+        v = mkval(NULL, REG_TYPE_UINT32, p32[i]);
+        add_stale(&v, 2, "was-u32=%08x", p32[i]);
+    }
+    for (unsigned i = 0; i < sizeof pf32 / sizeof *pf32; ++i) {
+        v = mkval(NULL, REG_TYPE_FLOAT32, pf32[i]);
+        add_stale(&v, 2, "was-f32=%08x", pf32[i]);
+    }
+    for (unsigned i = 0; i < sizeof p64 / sizeof *p64; ++i) {
+        v = mkval(NULL, REG_TYPE_UINT64, p64[i]);
+        add_stale(&v, 4, "was-u64=%016llx", (unsigned long long)p64[i]);
+    }
+    for (unsigned i = 0; i < sizeof pf64 / sizeof *pf64; ++i) {
+        v = mkval(NULL, REG_TYPE_FLOAT64, pf64[i]);
+        add_stale(&v, 4, "was-f64=%016llx", (unsigned long long)pf64[i]);
+    }
+    /* the object was the destination of register_get on a register of a wider
+     * type in another table (the way such objects come about in applications).
+     * What register_get leaves in the object is taken as it is. */
+    static const RegisterType WT[] = { REG_TYPE_UINT32, REG_TYPE_SINT32, REG_TYPE_FLOAT32, REG_TYPE_UINT64, REG_TYPE_SINT64, REG_TYPE_FLOAT64 };
+    static const uint64_t WP[6][2] = {
+        { 0xffffffffu, 0x01234567u }, { 0x80000000u, 0xfedcba98u }, { 0xbf800000u, 0x7149f2cau },
+        { ~0ull, 0x0123456789abcdefull }, { 1ull << 63, 0xfedcba9876543210ull }, { 0xbff0000000000000ull, 0x7e37e43c8800759cull },
+    };
+    struct tspec s;
+    memset(&s, 0, sizeof s);
+    s.na = 1;
+    s.a[0] = (struct aspec){ 0, 18, REG_AF_RW, false, false };
+    s.nr = 6;
+    uint32_t a = 0;
+    for (int i = 0; i < 6; ++i) {
+        s.r[i] = (struct rspec){ WT[i], a, K_NONE, vu_zero(), vu_zero(), vu_zero() };
+        a += ref_words(WT[i]);
+    }
+    static struct tab src;
+    tab_build(&src, &s);
+    (void)register_init(&src.t);
+    for (int i = 0; i < 6; ++i)
+        for (int k = 0; k < 2; ++k) {
+            (void)register_set_unsafe(&src.t, (RegisterHandle)i, mkval(NULL, WT[i], WP[i][k]));
+            memset(&v, 0, sizeof v);
+            (void)register_get(&src.t, (RegisterHandle)i, &v);
+            add_stale(&v, (int)ref_words(WT[i]), "got-%s=%0*llx", TYPE_NAME[WT[i]], (int)ref_words(WT[i]) * 4, (unsigned long long)WP[i][k]);
+        }
+    tab_free(&src);
+}
+
+/* does the past of the object leave anything behind when it is reused for a
+ * register of type rt?  (a narrower or equally wide previous value assigned
+ * to a zeroed object is overwritten completely: that object is the all-zero
+ * one of the other blocks) */
+static bool
+stale_applies(const struct stale *s, RegisterType rt)
+{
+    return s->width == 0 || (unsigned)s->width > ref_words(rt);
+}
+
+/* ---- one set ------------------------------------------------------------------ */
+
+/* one set (checked or not) of pattern `bits` typed vt, in an object with past
+ * st, from the current storage; returns true when everything agreed */
+static bool
+one_set(RegisterType rt, const struct rspec *rs, RegisterType vt, uint64_t bits, bool checked, const RegisterValue *st,
+        bool *accepted_out)
+{
+    unsigned char want[8];
+    snap();
+    const RegisterValue v = mkval(st, vt, bits);
     const bool typed = (vt == rt);
     const bool storable = typed && ref_storable(rt, bits);
     const bool accept = storable && (!checked || ref_constraint(rs, v.value));
-    RegisterAccess a = checked ? register_set(&tb.t, 1, v) : register_set_unsafe(&tb.t, 1, v);
+    RegisterAccess a = checked ? register_set(&tb.t, rut_h, v) : register_set_unsafe(&tb.t, rut_h, v);
     mc_trans(1);
     mc_log("%s(%s %016llx) -> %s", checked ? "set" : "set_unsafe", TYPE_NAME[vt], (unsigned long long)bits, acc(a.code));
-    mc_log_hex("words", tb.store[0], (sz + 2) * 2);
+    mc_log_hex("words", tb.store[rut_a], tb.s.a[rut_a].size * 2);
     if (accepted_out)
         *accepted_out = accept;
     if (accept) {
@@ -227,15 +471,18 @@ one_set(RegisterType rt, const struct rspec *rs, RegisterType vt, uint64_t bits,
             return false;
         }
         ref_image(rt, bits, tb.s.be, want);
-        if (!image_is(want, checked ? "C01/words-hold-value" : "C01/unchecked-stores-same", "after accepted set"))
+        if (!storage_is(want, checked ? "C01/words-hold-value" : "C01/unchecked-stores-same", "after accepted set"))
             return false;
         RegisterValue g;
-        memset(&g, 0, sizeof g);
-        RegisterAccess ga = register_get(&tb.t, 1, &g);
+        if (st != NULL)
+            memcpy(&g, st, sizeof g); /* the destination object has the same past */
+        else
+            memset(&g, 0, sizeof g);
+        RegisterAccess ga = register_get(&tb.t, rut_h, &g);
         mc_trans(1);
         if (ga.code != REG_ACCESS_SUCCESS || g.type != rt || ref_bits(rt, g.value) != bits) {
             mc_fail("C01/get-returns-set", "get after set of %016llx: %s type=%s bits=%016llx",
-                    (unsigned long long)bits, acc(ga.code), TYPE_NAME[g.type <= REG_TYPE_INVALID ? g.type : REG_TYPE_INVALID],
+                    (unsigned long long)bits, acc(ga.code), TYPE_NAME[(unsigned)g.type <= REG_TYPE_INVALID ? g.type : REG_TYPE_INVALID],
                     (unsigned long long)ref_bits(rt, g.value));
             return false;
         }
@@ -247,35 +494,99 @@ one_set(RegisterType rt, const struct rspec *rs, RegisterType vt, uint64_t bits,
             mc_fail(cl, "%s of %s pattern %016llx succeeded", checked ? "set" : "set_unsafe", TYPE_NAME[vt], (unsigned long long)bits);
             return false;
         }
-        if (!image_is(before, "C01/refused-leaves-storage", "after refused set"))
+        if (!storage_is(NULL, "C01/refused-leaves-storage", "after refused set"))
             return false;
     }
     return true;
+}
+
+/* handles that are not registers of the table: first one past the end, ... */
+static bool
+bad_handles(RegisterType rt, RegisterValueU val, const RegisterValue *st)
+{
+    const RegisterHandle nr = (RegisterHandle)tb.s.nr;
+    const RegisterHandle H[] = { nr, nr + 1, nr + 2, 0x7fffffffu, 0x80000000u, 0xffffffffu };
+    for (unsigned hi = 0; hi < sizeof H / sizeof *H; ++hi)
+        for (int checked = 0; checked < 2; ++checked) {
+            snap();
+            const RegisterValue v = mkval(st, rt, ref_bits(rt, val));
+            RegisterAccess a = checked ? register_set(&tb.t, H[hi], v) : register_set_unsafe(&tb.t, H[hi], v);
+            mc_trans(1);
+            mc_log("handle %u checked=%d -> %s", H[hi], checked, acc(a.code));
+            if (a.code != REG_ACCESS_NOENTRY) {
+                mc_fail("C01/bad-handle-noentry", "%s with handle %u (table has %d registers) returned %s",
+                        checked ? "set" : "set_unsafe", H[hi], tb.s.nr, acc(a.code));
+                return false;
+            }
+            if (!storage_is(NULL, "C01/refused-leaves-storage", "after bad-handle set"))
+                return false;
+        }
+    return true;
+}
+
+/* checked sets with a value of every other type (the tag "invalid" included):
+ * a pattern that would be fine in its own type and, seen through the
+ * register's own member, would also satisfy the constraint */
+static bool
+type_mismatches(RegisterType rt, const struct rspec *rs, const RegisterValue *st)
+{
+    for (int vt = 0; vt <= (int)REG_TYPE_INVALID; ++vt) {
+        if (vt == (int)rt)
+            continue;
+        const uint64_t two = vt == (int)REG_TYPE_INVALID ? 2 : ref_bits((RegisterType)vt, vu_int((RegisterType)vt, 2));
+        if (!one_set(rt, rs, (RegisterType)vt, two, true, st, NULL))
+            return false;
+    }
+    return true;
+}
+
+/* the closed value set: every value checked, then every value unchecked */
+static bool
+sweep_values(RegisterType rt, const struct rspec *rs, const RegisterValue *st, long *nacc, long *nref)
+{
+    for (int checked = 1; checked >= 0; --checked)
+        for (int ib = 0; ib < nV; ++ib) {
+            bool accd;
+            if (!one_set(rt, rs, rt, V[ib], checked, st, &accd))
+                return false;
+            *nacc += accd;
+            *nref += !accd;
+        }
+    return true;
+}
+
+/* ---- the single-area table of the value blocks ------------------------------- */
+
+static void
+cfg_spec(struct tspec *s, RegisterType rt, bool be, bool cb, const struct cfg *c, int ci, char *cdesc, size_t cdescn)
+{
+    memset(s, 0, sizeof *s);
+    sz = ref_words(rt);
+    s->be = be;
+    s->na = 1;
+    /* the area's base address differs from zero for two configurations out of
+     * three, so that register address and offset inside the area differ */
+    const uint32_t base = (ci % 3 == 0) ? 0 : (ci % 3 == 1) ? 0x100 : 0xfffe;
+    s->a[0] = (struct aspec){ base, sz + 2, REG_AF_RW, cb, false };
+    s->nr = 3;
+    s->r[0] = (struct rspec){ REG_TYPE_UINT16, base, K_NONE, vu_zero(), vu_zero(), vu_int(REG_TYPE_UINT16, 0x1111) };
+    s->r[1] = (struct rspec){ rt, base + 1, c->ckind, c->lo, c->hi, c->def };
+    s->r[2] = (struct rspec){ REG_TYPE_UINT16, base + 1 + sz, K_NONE, vu_zero(), vu_zero(), vu_int(REG_TYPE_UINT16, 0x2222) };
+    if (c->ckind == K_CB && !ref_cb_pred(rt, c->def))
+        mc_broken("default does not satisfy callback predicate");
+    snprintf(cdesc, cdescn, "%s %s %s base=%x %s lo=%016llx hi=%016llx", TYPE_NAME[rt], be ? "BE" : "LE", cb ? "cb" : "mem", base,
+             CKIND_NAME[c->ckind], (unsigned long long)ref_bits(rt, c->lo), (unsigned long long)ref_bits(rt, c->hi));
+    rut_simple();
 }
 
 static void
 run_config(RegisterType rt, bool be, bool cb, const struct cfg *c, int ci)
 {
     struct tspec s;
-    memset(&s, 0, sizeof s);
-    sz = ref_words(rt);
-    s.be = be;
-    s.na = 1;
-    /* the area's base address differs from zero for two configurations out of
-     * three, so that register address and offset inside the area differ */
-    const uint32_t base = (ci % 3 == 0) ? 0 : (ci % 3 == 1) ? 0x100 : 0xfffe;
-    s.a[0] = (struct aspec){ base, sz + 2, REG_AF_RW, cb, false };
-    s.nr = 3;
-    s.r[0] = (struct rspec){ REG_TYPE_UINT16, base, K_NONE, vu_zero(), vu_zero(), vu_int(REG_TYPE_UINT16, 0x1111) };
-    s.r[1] = (struct rspec){ rt, base + 1, c->ckind, c->lo, c->hi, c->def };
-    s.r[2] = (struct rspec){ REG_TYPE_UINT16, base + 1 + sz, K_NONE, vu_zero(), vu_zero(), vu_int(REG_TYPE_UINT16, 0x2222) };
-    if (c->ckind == K_CB && !ref_cb_pred(rt, c->def))
-        mc_broken("default does not satisfy callback predicate");
+    char cdesc[160];
+    cfg_spec(&s, rt, be, cb, c, ci, cdesc, sizeof cdesc);
     make_values(rt, c);
     const struct rspec *rs = &s.r[1];
-    char cdesc[160];
-    snprintf(cdesc, sizeof cdesc, "%s %s %s base=%x %s lo=%016llx hi=%016llx", TYPE_NAME[rt], be ? "BE" : "LE", cb ? "cb" : "mem", base,
-             CKIND_NAME[c->ckind], (unsigned long long)ref_bits(rt, c->lo), (unsigned long long)ref_bits(rt, c->hi));
 
     bool built = false;
 #define ENSURE_TABLE()                                                                   \
@@ -305,33 +616,8 @@ run_config(RegisterType rt, bool be, bool cb, const struct cfg *c, int ci)
     /* (1) handles and type mismatch */
     if (mc_case("cfg#%d %s handles+types", ci, cdesc)) {
         ENSURE_TABLE();
-        bool ok = true;
-        static const RegisterHandle H[] = { 3, 4, 5, 0x7fffffffu, 0xffffffffu };
-        unsigned char before[8];
-        for (unsigned hi = 0; hi < 5 && ok; ++hi)
-            for (int checked = 0; checked < 2 && ok; ++checked) {
-                memcpy(before, tb.store[0] + 1, sz * 2);
-                RegisterValue v;
-                memset(&v, 0, sizeof v);
-                v.type = rt;
-                v.value = c->def;
-                RegisterAccess a = checked ? register_set(&tb.t, H[hi], v) : register_set_unsafe(&tb.t, H[hi], v);
-                mc_trans(1);
-                mc_log("handle %u checked=%d -> %s", H[hi], checked, acc(a.code));
-                if (a.code != REG_ACCESS_NOENTRY) {
-                    mc_fail("C01/bad-handle-noentry", "%s with handle %u (table has 3 registers) returned %s",
-                            checked ? "set" : "set_unsafe", H[hi], acc(a.code));
-                    ok = false;
-                } else
-                    ok = image_is(before, "C01/refused-leaves-storage", "after bad-handle set");
-            }
-        for (int vt = 0; vt < 8 && ok; ++vt) {
-            if (vt == (int)rt)
-                continue;
-            /* a pattern that would be fine in its own type and, seen through
-             * the register's own member, would also satisfy the constraint */
-            ok = one_set(rt, rs, (RegisterType)vt, ref_bits((RegisterType)vt, vu_int((RegisterType)vt, 2)), true, NULL);
-        }
+        bool ok = bad_handles(rt, c->def, NULL);
+        ok = ok && type_mismatches(rt, rs, NULL);
         mc_end(true, ok ? "handles-ok" : "handles-fail");
     }
 
@@ -344,7 +630,7 @@ run_config(RegisterType rt, bool be, bool cb, const struct cfg *c, int ci)
             for (uint32_t b = 0; b < 65536 && ok; ++b)
                 for (int checked = 1; checked >= 0 && ok; --checked) {
                     bool accd;
-                    ok = one_set(rt, rs, rt, b, checked, &accd);
+                    ok = one_set(rt, rs, rt, b, checked, NULL, &accd);
                     nacc += accd;
                 }
             mc_end(true, nacc == 0 ? "sweep-none-accepted" : nacc == 131072 ? "sweep-all-accepted" : "sweep-mixed");
@@ -364,10 +650,10 @@ run_config(RegisterType rt, bool be, bool cb, const struct cfg *c, int ci)
         for (int ib = 0; ib < nV && ok; ++ib)
             for (int checked = 1; checked >= 0 && ok; --checked) {
                 bool accd;
-                ok = one_set(rt, rs, rt, V[ia], false, NULL); /* pre-state */
+                ok = one_set(rt, rs, rt, V[ia], false, NULL, NULL); /* pre-state */
                 if (!ok)
                     break;
-                ok = one_set(rt, rs, rt, V[ib], checked, &accd);
+                ok = one_set(rt, rs, rt, V[ib], checked, NULL, &accd);
                 nacc += accd;
                 nref += !accd;
             }
@@ -378,55 +664,622 @@ run_config(RegisterType rt, bool be, bool cb, const struct cfg *c, int ci)
 #undef ENSURE_TABLE
 }
 
-/* tables with zero or one register: every handle from 0 upward is "one past
- * the end" much earlier than in the three-register table */
+/* ---- block S: value objects (and bound objects) with a past ------------------ */
+
+/* the entry of the register under test gets bound and default objects whose
+ * octets outside the member of the register's type are those of st */
+static void
+dirty_bounds(RegisterType rt, const struct cfg *c, const RegisterValue *st)
+{
+    RegisterEntry *e = &tb.entries[rut_h];
+    e->default_value = vu_over(st, rt, c->def);
+    switch (c->ckind) {
+    case K_MIN: e->check.arg.min = vu_over(st, rt, c->lo); break;
+    case K_MAX: e->check.arg.max = vu_over(st, rt, c->hi); break;
+    case K_RANGE:
+        e->check.arg.range.min = vu_over(st, rt, c->lo);
+        e->check.arg.range.max = vu_over(st, rt, c->hi);
+        break;
+    case K_NONE: case K_FAIL: /* the argument is not used by these kinds */
+        e->check.arg.range.min = st->value;
+        e->check.arg.range.max = st->value;
+        break;
+    default: break;
+    }
+}
+
+static void
+run_stale(RegisterType rt, bool be, bool cb, const struct cfg *c, int ci)
+{
+    struct tspec s;
+    char cdesc[160];
+    cfg_spec(&s, rt, be, cb, c, ci, cdesc, sizeof cdesc);
+    make_values(rt, c);
+    const struct rspec *rs = &s.r[1];
+    for (int si = 0; si < nST; ++si) {
+        if (!stale_applies(&ST[si], rt))
+            continue;
+        for (int dirty = 0; dirty < 2; ++dirty) {
+            if (!mc_case("cfg#%d %s value object %s, entry bounds %s x %d values + other types + bad handles", ci, cdesc, ST[si].name,
+                         dirty ? "with the same past" : "clean", nV))
+                continue;
+            tab_build(&tb, &s);
+            if (dirty)
+                dirty_bounds(rt, c, &ST[si].img);
+            RegisterInit ri = register_init(&tb.t);
+            if (ri.code != REG_INIT_SUCCESS) {
+                mc_fail("C01/setup-init", "register_init of a well-formed table failed with %d", ri.code);
+                mc_end(false, "init-failed");
+                tab_free(&tb);
+                continue;
+            }
+            long nacc = 0, nref = 0;
+            bool ok = sweep_values(rt, rs, &ST[si].img, &nacc, &nref);
+            ok = ok && type_mismatches(rt, rs, &ST[si].img);
+            ok = ok && bad_handles(rt, c->def, &ST[si].img);
+            mc_end(nacc > 0 || nref > 0, !ok ? "stale-fail" : nref == 0 ? "stale-all-accepted" : nacc == 0 ? "stale-all-refused" : "stale-mixed");
+            tab_free(&tb);
+        }
+    }
+}
+
+/* thorough: every 16-bit value in objects with three different pasts */
+static void
+run_stale16(RegisterType rt, bool be, bool cb, const struct cfg *c, int ci)
+{
+    struct tspec s;
+    char cdesc[160];
+    cfg_spec(&s, rt, be, cb, c, ci, cdesc, sizeof cdesc);
+    const struct rspec *rs = &s.r[1];
+    static const int PICK[] = { 0 /* fill-ff */, 4 /* was-u32=ffffffff */, 17 /* was-u64=0123456789abcdef */ };
+    for (unsigned k = 0; k < 3; ++k) {
+        const struct stale *st = &ST[PICK[k]];
+        if (!mc_case("cfg#%d %s value object %s all 65536 values", ci, cdesc, st->name))
+            continue;
+        tab_build(&tb, &s);
+        RegisterInit ri = register_init(&tb.t);
+        if (ri.code != REG_INIT_SUCCESS) {
+            mc_fail("C01/setup-init", "register_init of a well-formed table failed with %d", ri.code);
+            mc_end(false, "init-failed");
+            tab_free(&tb);
+            continue;
+        }
+        bool ok = true;
+        long nacc = 0;
+        for (uint32_t b = 0; b < 65536 && ok; ++b)
+            for (int checked = 1; checked >= 0 && ok; --checked) {
+                bool accd;
+                ok = one_set(rt, rs, rt, b, checked, &st->img, &accd);
+                nacc += accd;
+            }
+        mc_end(true, !ok ? "stale-fail" : nacc == 0 ? "stale-all-refused" : nacc == 131072 ? "stale-all-accepted" : "stale-mixed");
+        tab_free(&tb);
+    }
+}
+
+/* ---- blocks G and H: geometries, initialisation histories, other calls ------- */
+
+struct geo {
+    int na, rut;
+    unsigned pop; /* bit i: area i holds registers (bit rut is set) */
+};
+
+static int
+make_geos(struct geo *out)
+{
+    int n = 0;
+    for (int na = 1; na <= RT_MAXA; ++na)
+        for (int rut = 0; rut < na; ++rut)
+            for (unsigned pop = 0; pop < (1u << na); ++pop)
+                if (pop & (1u << rut))
+                    out[n++] = (struct geo){ na, rut, pop };
+    return n;
+}
+
+/* where the areas without registers are */
+static const char *
+geo_class(const struct geo *g)
+{
+    const unsigned all = (1u << g->na) - 1, empty = all & ~g->pop;
+    if (empty == 0)
+        return "geo-full";
+    /* leading: the empty areas are exactly areas 0..k-1; trailing: exactly na-k..na-1 */
+    for (int k = 1; k < g->na; ++k) {
+        if (empty == (1u << k) - 1)
+            return "geo-leading-empty";
+        if (empty == (all & ~((1u << (g->na - k)) - 1)))
+            return "geo-trailing-empty";
+    }
+    if (!(empty & 1u) && !(empty & (1u << (g->na - 1))))
+        return "geo-middle-empty";
+    return "geo-several-empty";
+}
+
+/* areas in ascending address order from base0; bit i of gaps: one unmapped
+ * word behind area i.  The area of the register under test holds guard u16,
+ * the register, guard u16 (or, with alone, just the register) and is read-write, memory-backed (rb 0, 2) or
+ * callback-backed (rb 1, 3), with skip-defaults for rb 2 and 3 (the registers
+ * then start from whatever the backing holds); every other populated area holds one u16; empty
+ * areas are two words wide.  The other areas have style (ostyle + i) % 6 when
+ * rotate is set, else ostyle: 0 memory RW, 1 callbacks RW, 2 memory
+ * read-only, 3 callbacks read-only without write callback, 4 memory RW with
+ * skip-defaults, 5 callbacks write-only. */
+#define NOSTYLE 6
+static const char *RB_NAME[] = { "mem", "cb", "mem-skipdef", "cb-skipdef" };
+static void
+geo_spec(struct tspec *s, const struct geo *g, unsigned gaps, uint32_t base0, RegisterType rt, bool be, int rb, int ostyle, bool rotate,
+         bool alone, const struct cfg *c)
+{
+    memset(s, 0, sizeof *s);
+    sz = ref_words(rt);
+    s->be = be;
+    s->na = g->na;
+    uint32_t a = base0;
+    memset(area_pop, 0, sizeof area_pop);
+    for (int i = 0; i < g->na; ++i) {
+        const bool pop = (g->pop >> i) & 1u;
+        const uint32_t size = (i == g->rut) ? (alone ? sz : sz + 2) : pop ? 1 : 2;
+        area_pop[i] = pop;
+        if (i == g->rut) {
+            s->a[i] = (struct aspec){ a, size, (uint16_t)(REG_AF_RW | ((rb & 2) ? REG_AF_SKIP_DEFAULTS : 0)), (rb & 1) != 0, false };
+            rut_a = i;
+            rut_off = alone ? 0 : 1;
+            if (!alone)
+                s->r[s->nr++] = (struct rspec){ REG_TYPE_UINT16, a, K_NONE, vu_zero(), vu_zero(), vu_int(REG_TYPE_UINT16, 0x1111) };
+            rut_h = (RegisterHandle)s->nr;
+            s->r[s->nr++] = (struct rspec){ rt, a + rut_off, c->ckind, c->lo, c->hi, c->def };
+            if (!alone)
+                s->r[s->nr++] = (struct rspec){ REG_TYPE_UINT16, a + 1 + sz, K_NONE, vu_zero(), vu_zero(), vu_int(REG_TYPE_UINT16, 0x2222) };
+        } else {
+            const int st = rotate ? (ostyle + i) % NOSTYLE : ostyle;
+            static const uint16_t FL[NOSTYLE] = { REG_AF_RW, REG_AF_RW, REG_AF_READABLE, REG_AF_READABLE, REG_AF_RW | REG_AF_SKIP_DEFAULTS, REG_AF_WRITEABLE };
+            s->a[i] = (struct aspec){ a, size, FL[st], (st & 1) != 0, st == 3 };
+            if (pop)
+                s->r[s->nr++] = (struct rspec){ REG_TYPE_UINT16, a, K_NONE, vu_zero(), vu_zero(), vu_int(REG_TYPE_UINT16, 0x3300 + i) };
+        }
+        a += size + ((gaps >> i) & 1u);
+    }
+}
+
+/* initialisation steps: 'G' the description as it is (succeeds); the others
+ * damage the description in one way, call register_init (which refuses, as far
+ * as this check is concerned: whatever it does) and repair the description */
+enum { IH_G, IH_HOLE, IH_DEFAULT, IH_EORDER, IH_EOVERLAP, IH_AORDER, IH_AOVERLAP, IH_NOAREAS, IH_NOENTRIES, IH_OTHER_ORDER, IH_N };
+static const char *IH_NAME[] = { "ok", "hole", "bad-default", "entry-order", "entry-overlap", "area-order", "area-overlap", "no-areas", "null-entries", "ok-in-other-byte-order" };
+
+static bool
+ih_applies(int op, int na)
+{
+    return (op != IH_AORDER && op != IH_AOVERLAP) || na >= 2;
+}
+
+static RegisterInit
+init_step(int op)
+{
+    RegisterInit ri;
+    const int nr = tb.s.nr, na = tb.s.na;
+    switch (op) {
+    case IH_HOLE: {
+        const RegisterAddress good = tb.entries[nr - 1].address;
+        tb.entries[nr - 1].address = 0x7fff0000u;
+        ri = register_init(&tb.t);
+        tb.entries[nr - 1].address = good;
+        break;
+    }
+    case IH_DEFAULT: {
+        /* entry 0 is a u16 without constraint in every table of these blocks */
+        RegisterEntry *e = &tb.entries[0];
+        const RegisterValidator good = e->check;
+        e->check.type = REGV_TYPE_MIN;
+        e->check.arg.min = vu_int(REG_TYPE_UINT16, 0xffff);
+        ri = register_init(&tb.t);
+        e->check = good;
+        break;
+    }
+    case IH_EORDER: {
+        const RegisterAddress good = tb.entries[0].address;
+        tb.entries[0].address = tb.entries[nr - 1].address + 0x10;
+        ri = register_init(&tb.t);
+        tb.entries[0].address = good;
+        break;
+    }
+    case IH_EOVERLAP: {
+        const RegisterAddress good = tb.entries[1].address;
+        tb.entries[1].address = tb.entries[0].address;
+        ri = register_init(&tb.t);
+        tb.entries[1].address = good;
+        break;
+    }
+    case IH_AORDER: {
+        const RegisterAddress good = tb.areas[0].base;
+        tb.areas[0].base = tb.areas[na - 1].base + 0x1000;
+        ri = register_init(&tb.t);
+        tb.areas[0].base = good;
+        break;
+    }
+    case IH_AOVERLAP: {
+        const RegisterAddress good = tb.areas[1].base;
+        tb.areas[1].base = tb.areas[0].base;
+        ri = register_init(&tb.t);
+        tb.areas[1].base = good;
+        break;
+    }
+    case IH_NOAREAS:
+        tb.t.area = tb.areas + na; /* the end marker: a table without areas */
+        ri = register_init(&tb.t);
+        tb.t.area = tb.areas;
+        break;
+    case IH_NOENTRIES:
+        tb.t.entry = NULL;
+        ri = register_init(&tb.t);
+        tb.t.entry = tb.entries;
+        break;
+    case IH_OTHER_ORDER:
+        /* the table is brought up in the other byte order first, then switched
+         * back (the next step initialises it again) */
+        register_make_bigendian(&tb.t, !tb.s.be);
+        ri = register_init(&tb.t);
+        register_make_bigendian(&tb.t, tb.s.be);
+        break;
+    default:
+        ri = register_init(&tb.t);
+        break;
+    }
+    mc_log("init step %s -> %d", IH_NAME[op], (int)ri.code);
+    return ri;
+}
+
+/* other calls of the register API, one of which runs between the last
+ * initialisation and the sets under test.  Their results are logged, not
+ * judged (other properties do that); faults are disarmed afterwards. */
+enum {
+    OP_NONE, OP_SANITISE, OP_SANITISE_RF0, OP_SANITISE_RF1, OP_SANITISE_RF2, OP_SANITISE_RF3, OP_SANITISE_RF4, OP_SANITISE_RF5,
+    OP_POKE_SANITISE, OP_POKE_SANITISE_WF, OP_BW_OK, OP_BW_REFUSED, OP_BW_HOLE, OP_BW_RF, OP_BW_WF, OP_BR, OP_BR_RF,
+    OP_DEFAULT, OP_BITS, OP_HEXSTR, OP_FOREACH, OP_COMPARE, OP_GET_RF, OP_SET_WF, OP_MCOPY, OP_N
+};
+static const char *OP_NAME[] = {
+    "nothing", "sanitise", "sanitise/read-fault@0", "sanitise/read-fault@1", "sanitise/read-fault@2", "sanitise/read-fault@3",
+    "sanitise/read-fault@4", "sanitise/read-fault@5", "poke+sanitise", "poke+sanitise/write-fault", "block-write", "block-write-refused",
+    "block-write-hole", "block-write/read-fault", "block-write/write-fault", "block-read", "block-read/read-fault", "default",
+    "bit-set+clear", "hexstr", "foreach+user-init-stopped", "compare", "get/read-fault", "set/write-fault", "mcopy"
+};
+static const char *OP_OUTCOME[] = {
+    "after-nothing", "after-sanitise", "after-sanitise-fault", "after-sanitise-fault", "after-sanitise-fault", "after-sanitise-fault",
+    "after-sanitise-fault", "after-sanitise-fault", "after-sanitise-reload", "after-sanitise-reload-fault", "after-block-write", "after-block-write",
+    "after-block-write", "after-block-fault", "after-block-fault", "after-block-read", "after-block-fault", "after-default",
+    "after-bits", "after-hexstr", "after-iteration", "after-compare", "after-access-fault", "after-access-fault", "after-mcopy"
+};
+
+static bool
+op_needs_cb(int op)
+{
+    return (op >= OP_SANITISE_RF0 && op <= OP_SANITISE_RF5) || op == OP_POKE_SANITISE_WF || op == OP_BW_RF || op == OP_BW_WF
+        || op == OP_BR_RF || op == OP_GET_RF || op == OP_SET_WF;
+}
+
+static bool
+op_applies(int op, int na, bool any_cb)
+{
+    if (op_needs_cb(op) && !any_cb)
+        return false;
+    if (op == OP_MCOPY && na < 2)
+        return false;
+    return true;
+}
+
+static int
+stop_iteration(RegisterTable *t, RegisterHandle h, void *arg)
+{
+    (void)t;
+    (void)h;
+    (void)arg;
+    return -1;
+}
+
+/* a pattern of the closed value set that decodes but that the register's
+ * constraint refuses, or (floats) one that does not decode; false if none */
+static bool
+unwelcome_pattern(RegisterType rt, const struct rspec *rs, uint64_t *out)
+{
+    for (int i = 0; i < nV; ++i)
+        if (ref_storable(rt, V[i]) && !ref_constraint(rs, ref_from_bits(rt, V[i])) && V[i] != ref_bits(rt, rs->def)) {
+            *out = V[i];
+            return true;
+        }
+    for (int i = 0; i < nV; ++i)
+        if (!ref_storable(rt, V[i])) {
+            *out = V[i];
+            return true;
+        }
+    return false;
+}
+
+static void
+arm(long rd, long wr)
+{
+    tb.cb_reads = tb.cb_writes = 0;
+    tb.cb_fail_read_at = rd;
+    tb.cb_fail_write_at = wr;
+}
+
+static void
+other_call(int op, RegisterType rt, const struct rspec *rs)
+{
+    RegisterAccess a = REG_ACCESS_RESULT_INIT;
+    const uint32_t raddr = rs->addr;
+    unsigned char img[8];
+    RegisterAtom *buf = mc_exact(8 * sizeof(RegisterAtom));
+    memset(buf, 0, 8 * sizeof(RegisterAtom));
+    uint64_t bad = 0;
+    const bool have_bad = unwelcome_pattern(rt, rs, &bad);
+    switch (op) {
+    case OP_NONE:
+        break;
+    case OP_SANITISE:
+        a = register_sanitise(&tb.t);
+        break;
+    case OP_SANITISE_RF0: case OP_SANITISE_RF1: case OP_SANITISE_RF2: case OP_SANITISE_RF3: case OP_SANITISE_RF4: case OP_SANITISE_RF5:
+        arm(op - OP_SANITISE_RF0, -1);
+        a = register_sanitise(&tb.t);
+        break;
+    case OP_POKE_SANITISE: case OP_POKE_SANITISE_WF:
+        /* the backing words are changed behind the table's back to content the
+         * register must not hold; sanitise puts the default back */
+        ref_image(rt, have_bad ? bad : ~ref_bits(rt, rs->def), tb.s.be, img);
+        memcpy(tb.store[rut_a] + rut_off, img, sz * 2);
+        if (op == OP_POKE_SANITISE_WF)
+            arm(-1, 0);
+        a = register_sanitise(&tb.t);
+        break;
+    case OP_BW_OK: case OP_BW_RF: case OP_BW_WF:
+        ref_image(rt, ref_bits(rt, rs->def), tb.s.be, img);
+        memcpy(buf, img, sz * 2);
+        if (op == OP_BW_RF)
+            arm(0, -1);
+        if (op == OP_BW_WF)
+            arm(-1, 0);
+        a = register_block_write(&tb.t, raddr, sz, buf);
+        break;
+    case OP_BW_REFUSED:
+        ref_image(rt, have_bad ? bad : ref_bits(rt, rs->def), tb.s.be, img);
+        memcpy(buf, img, sz * 2);
+        a = register_block_write(&tb.t, raddr, sz, buf);
+        break;
+    case OP_BW_HOLE:
+        a = register_block_write(&tb.t, tb.s.a[tb.s.na - 1].base + tb.s.a[tb.s.na - 1].size + 3, 1, buf);
+        break;
+    case OP_BR: case OP_BR_RF:
+        if (op == OP_BR_RF)
+            arm(0, -1);
+        a = register_block_read(&tb.t, raddr - 1, sz + 2, buf);
+        break;
+    case OP_DEFAULT: {
+        RegisterValue v;
+        memset(&v, 0, sizeof v);
+        a = register_default(&tb.t, rut_h, &v);
+        (void)register_default(&tb.t, (RegisterHandle)tb.s.nr, &v);
+        break;
+    }
+    case OP_BITS:
+        a = register_bit_set(&tb.t, rut_h, mkval(NULL, rt, ref_bits(rt, rs->def)));
+        (void)register_bit_clear(&tb.t, rut_h, mkval(NULL, rt, 0));
+        (void)register_bit_set(&tb.t, (RegisterHandle)tb.s.nr, mkval(NULL, rt, 1));
+        break;
+    case OP_HEXSTR:
+        a = register_set_from_hexstr(&tb.t, raddr, "00a5", 4);
+        (void)register_set_from_hexstr(&tb.t, raddr, "zz", 2);
+        break;
+    case OP_FOREACH:
+        a = register_foreach_in(&tb.t, tb.s.a[0].base, tb.s.a[tb.s.na - 1].base + tb.s.a[tb.s.na - 1].size - tb.s.a[0].base, stop_iteration, NULL);
+        (void)register_user_init(&tb.t, stop_iteration);
+        break;
+    case OP_COMPARE:
+        a = register_compare(&tb.t, rut_h, rut_h - 1);
+        (void)register_compare(&tb.t, rut_h, (RegisterHandle)tb.s.nr);
+        break;
+    case OP_GET_RF: {
+        RegisterValue v;
+        memset(&v, 0, sizeof v);
+        arm(0, -1);
+        a = register_get(&tb.t, rut_h, &v);
+        break;
+    }
+    case OP_SET_WF:
+        arm(-1, 0);
+        a = register_set_unsafe(&tb.t, rut_h, mkval(NULL, rt, ref_bits(rt, rs->def)));
+        arm(-1, 0);
+        (void)register_set(&tb.t, rut_h - 1, mkval(NULL, REG_TYPE_UINT16, 0x1111));
+        break;
+    case OP_MCOPY: {
+        const AreaHandle other = (AreaHandle)(rut_a == 0 ? 1 : rut_a - 1);
+        a = register_mcopy(&tb.t, other, (AreaHandle)rut_a);
+        (void)register_mcopy(&tb.t, (AreaHandle)rut_a, other);
+        break;
+    }
+    default:
+        break;
+    }
+    mc_trans(1);
+    mc_log("other call %s -> %s (callback reads %ld writes %ld)", OP_NAME[op], acc(a.code), tb.cb_reads, tb.cb_writes);
+    tb.cb_fail_read_at = tb.cb_fail_write_at = -1;
+    tb.cb_oob = 0;
+    free(buf);
+}
+
+/* one table: geometry, initialisation history hist[0..nh) (the last step is
+ * IH_G), one other call, then the value set, other types and bad handles */
+static void
+geo_case(const char *block, const struct geo *g, unsigned gaps, uint32_t base0, RegisterType rt, bool be, int rb, int ostyle, bool rotate,
+         bool alone, const struct cfg *c, int ck, const int *hist, int nh, int op, const char *outcome)
+{
+    struct tspec s;
+    for (int i = 0; i < nh; ++i)
+        if (!ih_applies(hist[i], g->na))
+            return;
+    /* (the intervening calls other than 'nothing' are used with uniformly backed tables only) */
+    if (!op_applies(op, g->na, (rb & 1) != 0))
+        return;
+    if (!mc_would_run()) {
+        mc_skip_case();
+        return;
+    }
+    geo_spec(&s, g, gaps, base0, rt, be, rb, ostyle, rotate, alone, c);
+    char hd[96];
+    size_t l = 0;
+    hd[0] = 0;
+    for (int i = 0; i < nh && l < sizeof hd - 16; ++i)
+        l += (size_t)snprintf(hd + l, sizeof hd - l, "%s%s", i ? "," : "", IH_NAME[hist[i]]);
+    if (!mc_case("%s areas=%d reg-in=%d%s populated=%x gaps=%x base=%x %s %s reg-area=%s others=%d%s k#%d %s lo=%016llx hi=%016llx init=[%s] then %s", block,
+                 g->na, g->rut, alone ? "(alone)" : "", g->pop, gaps, base0, TYPE_NAME[rt], be ? "BE" : "LE", RB_NAME[rb], ostyle, rotate ? "+i" : "", ck, CKIND_NAME[c->ckind],
+                 (unsigned long long)ref_bits(rt, c->lo), (unsigned long long)ref_bits(rt, c->hi), hd, OP_NAME[op]))
+        return;
+    make_values(rt, c);
+    const struct rspec *rs = &s.r[rut_h];
+    tab_build(&tb, &s);
+    if (mc.verbose)
+        mc_log("%s", tspec_str(&s));
+    RegisterInit ri = REG_INIT_RESULT_INIT;
+    for (int i = 0; i < nh; ++i)
+        ri = init_step(hist[i]);
+    if (ri.code != REG_INIT_SUCCESS) {
+        mc_fail("C01/setup-init", "register_init of a well-formed table failed with %d", ri.code);
+        mc_end(false, "init-failed");
+        tab_free(&tb);
+        return;
+    }
+    other_call(op, rt, rs);
+    long nacc = 0, nref = 0;
+    bool ok = sweep_values(rt, rs, NULL, &nacc, &nref);
+    ok = ok && type_mismatches(rt, rs, NULL);
+    ok = ok && bad_handles(rt, c->def, NULL);
+    mc_end(nacc > 0 || nref > 0, ok ? outcome : "geo-fail");
+    tab_free(&tb);
+}
+
+static void
+run_geometries(void)
+{
+    static struct geo G[64];
+    const int ng = make_geos(G);
+    static struct cfg cfgs[64];
+    static const uint32_t BASE[] = { 0, 0x100, 0xfff8 };
+    static const int HIST[2] = { IH_G, IH_G };
+    /* pass 0 (both tiers): one configuration per constraint kind, one gap
+     * pattern per geometry and style (rotating);  pass 1 (thorough): every
+     * constraint configuration (numbered from 100), the same gap pattern;
+     * pass 2 (thorough): one configuration per kind, every other gap
+     * pattern.  The base address rotates in all passes. */
+    for (int pass = 0; pass < (mc_thorough() ? 3 : 1); ++pass)
+        for (int t = 0; t < 8; ++t) {
+            const RegisterType rt = (RegisterType)t;
+            const int nc = pass == 1 ? make_cfgs(rt, cfgs) : pick_cfgs(rt, cfgs);
+            for (int be = 0; be < 2; ++be)
+                for (int rb = 0; rb < 4; ++rb)
+                    for (int ck = 0; ck < nc; ++ck)
+                        for (int gi = 0; gi < ng; ++gi) {
+                            const struct geo *g = &G[gi];
+                            const unsigned ngap = 1u << (g->na - 1);
+                            for (int ostyle = 0; ostyle < (g->na > 1 ? NOSTYLE : 1); ++ostyle)
+                                for (unsigned gaps = 0; gaps < ngap; ++gaps) {
+                                    const bool rot = gaps == ((unsigned)gi * 5u + 1u + (unsigned)ostyle) % ngap;
+                                    if (pass == 2 ? rot : !rot)
+                                        continue;
+                                    const uint32_t base0 = BASE[(gi + ck + ostyle) % 3];
+                                    for (int alone = 0; alone < 2; ++alone)
+                                        for (int nh = 1; nh <= 2; ++nh)
+                                            geo_case("geometry", g, gaps, base0, rt, be, rb, ostyle, true, alone != 0, &cfgs[ck],
+                                                     pass == 1 ? 100 + ck : ck, HIST, nh, OP_NONE, geo_class(g));
+                                }
+                        }
+        }
+}
+
+static void
+run_histories(void)
+{
+    /* one area; trailing empty; leading empty; middle empty; three populated; empty on both sides */
+    static const struct geo HG[] = { { 1, 0, 0x1 }, { 2, 0, 0x1 }, { 2, 1, 0x2 }, { 3, 0, 0x5 }, { 3, 1, 0x7 }, { 4, 1, 0x6 } };
+    static const unsigned HGAPS[] = { 0, 1, 0, 2, 1, 5 };
+    static struct cfg cfgs[8];
+    const int maxlen = mc_thorough() ? 3 : 2;
+    for (int t = 0; t < 8; ++t) {
+        const RegisterType rt = (RegisterType)t;
+        const int nc = pick_cfgs(rt, cfgs);
+        for (int be = 0; be < 2; ++be)
+            for (int backing = 0; backing < 2; ++backing)
+                for (int ck = 0; ck < nc; ++ck)
+                    for (unsigned gi = 0; gi < sizeof HG / sizeof *HG; ++gi)
+                        for (int len = 1; len <= maxlen; ++len) {
+                            /* every sequence of len-1 steps over the ten-step alphabet, then 'ok' */
+                            int n = 1;
+                            for (int i = 1; i < len; ++i)
+                                n *= IH_N;
+                            for (int code = 0; code < n; ++code) {
+                                int hist[3], x = code;
+                                for (int i = 0; i < len - 1; ++i) {
+                                    hist[i] = x % IH_N;
+                                    x /= IH_N;
+                                }
+                                hist[len - 1] = IH_G;
+                                for (int op = 0; op < OP_N; ++op)
+                                    geo_case("history", &HG[gi], HGAPS[gi], (gi & 1) ? 0x100 : 0, rt, be, backing, backing, false, false, &cfgs[ck], ck,
+                                             hist, len, op, OP_OUTCOME[op]);
+                            }
+                        }
+    }
+}
+
+/* tables with zero or one register (in one to three areas): every handle
+ * from 0 upward is "one past the end" much earlier than in the other tables */
 static void
 small_tables(void)
 {
     for (int nreg = 0; nreg <= 1; ++nreg)
-        for (int be = 0; be < 2; ++be)
-            for (int cb = 0; cb < 2; ++cb) {
-                if (!mc_case("small table with %d registers %s %s: handles 0..3, 2^31, 2^32-1 x set/set_unsafe/get", nreg, be ? "BE" : "LE", cb ? "cb" : "mem"))
-                    continue;
-                struct tspec s;
-                memset(&s, 0, sizeof s);
-                s.be = be;
-                s.na = 1;
-                s.a[0] = (struct aspec){ 0, 2, REG_AF_RW, cb, false };
-                s.nr = nreg;
-                if (nreg)
-                    s.r[0] = (struct rspec){ REG_TYPE_UINT16, 0, K_NONE, vu_zero(), vu_zero(), vu_int(REG_TYPE_UINT16, 0x1111) };
-                tab_build(&tb, &s);
-                RegisterInit ri = register_init(&tb.t);
-                bool ok = true;
-                if (ri.code != REG_INIT_SUCCESS) {
-                    mc_fail("C01/setup-init", "register_init of a well-formed table failed with %d", ri.code);
-                    ok = false;
-                }
-                static const RegisterHandle H[] = { 0, 1, 2, 3, 0x80000000u, 0xffffffffu };
-                for (unsigned hi = 0; hi < 6 && ok; ++hi)
-                    for (int variant = 0; variant < 2 && ok; ++variant) {
-                        if (H[hi] < (RegisterHandle)nreg)
+        for (int na = 1; na <= 3; ++na)
+            for (int ra = 0; ra < (nreg ? na : 1); ++ra)
+                for (int be = 0; be < 2; ++be)
+                    for (int cb = 0; cb < 2; ++cb) {
+                        if (!mc_case("small table with %d registers (in area %d of %d) %s %s: handles 0..3, 2^31, 2^32-1 x set/set_unsafe", nreg,
+                                     ra, na, be ? "BE" : "LE", cb ? "cb" : "mem"))
                             continue;
-                        RegisterAtom before[2] = { tb.store[0][0], tb.store[0][1] };
-                        RegisterValue v;
-                        memset(&v, 0, sizeof v);
-                        v.type = REG_TYPE_UINT16;
-                        v.value.u16 = 0x2222;
-                        RegisterAccess a = variant ? register_set(&tb.t, H[hi], v) : register_set_unsafe(&tb.t, H[hi], v);
-                        mc_trans(1);
-                        mc_log("handle %u %s -> %s", H[hi], variant ? "set" : "set_unsafe", acc(a.code));
-                        if (a.code != REG_ACCESS_NOENTRY) {
-                            mc_fail("C01/bad-handle-noentry", "%s with handle %u (table has %d registers) returned %s", variant ? "set" : "set_unsafe", H[hi], nreg, acc(a.code));
-                            ok = false;
-                        } else if (tb.store[0][0] != before[0] || tb.store[0][1] != before[1]) {
-                            mc_fail("C01/refused-leaves-storage", "storage changed by a set with a bad handle");
+                        struct tspec s;
+                        memset(&s, 0, sizeof s);
+                        s.be = be;
+                        s.na = na;
+                        for (int i = 0; i < na; ++i)
+                            s.a[i] = (struct aspec){ 4u * (uint32_t)i, 2, REG_AF_RW, cb, false };
+                        s.nr = nreg;
+                        if (nreg)
+                            s.r[0] = (struct rspec){ REG_TYPE_UINT16, 4u * (uint32_t)ra, K_NONE, vu_zero(), vu_zero(), vu_int(REG_TYPE_UINT16, 0x1111) };
+                        tab_build(&tb, &s);
+                        RegisterInit ri = register_init(&tb.t);
+                        bool ok = true;
+                        if (ri.code != REG_INIT_SUCCESS) {
+                            mc_fail("C01/setup-init", "register_init of a well-formed table failed with %d", ri.code);
                             ok = false;
                         }
+                        static const RegisterHandle H[] = { 0, 1, 2, 3, 0x80000000u, 0xffffffffu };
+                        for (unsigned hi = 0; hi < 6 && ok; ++hi)
+                            for (int variant = 0; variant < 2 && ok; ++variant) {
+                                if (H[hi] < (RegisterHandle)nreg)
+                                    continue;
+                                snap();
+                                RegisterValue v;
+                                memset(&v, 0, sizeof v);
+                                v.type = REG_TYPE_UINT16;
+                                v.value.u16 = 0x2222;
+                                RegisterAccess a = variant ? register_set(&tb.t, H[hi], v) : register_set_unsafe(&tb.t, H[hi], v);
+                                mc_trans(1);
+                                mc_log("handle %u %s -> %s", H[hi], variant ? "set" : "set_unsafe", acc(a.code));
+                                if (a.code != REG_ACCESS_NOENTRY) {
+                                    mc_fail("C01/bad-handle-noentry", "%s with handle %u (table has %d registers) returned %s", variant ? "set" : "set_unsafe", H[hi], nreg, acc(a.code));
+                                    ok = false;
+                                } else
+                                    ok = storage_is(NULL, "C01/refused-leaves-storage", "after bad-handle set");
+                            }
+                        tab_free(&tb);
+                        mc_end(true, ok ? "handles-ok" : "handles-fail");
                     }
-                tab_free(&tb);
-                mc_end(true, ok ? "handles-ok" : "handles-fail");
-            }
 }
 
 /* thorough: all 2^32 patterns of the 32-bit types under a range constraint */
@@ -457,6 +1310,7 @@ sweep32(RegisterType rt, bool be)
     s.r[0] = (struct rspec){ REG_TYPE_UINT16, 0, K_NONE, vu_zero(), vu_zero(), vu_int(REG_TYPE_UINT16, 0x1111) };
     s.r[1] = (struct rspec){ rt, 1, c.ckind, c.lo, c.hi, c.def };
     s.r[2] = (struct rspec){ REG_TYPE_UINT16, 1 + sz, K_NONE, vu_zero(), vu_zero(), vu_int(REG_TYPE_UINT16, 0x2222) };
+    rut_simple();
     bool built = false;
     for (uint32_t chunk = 0; chunk < 4096; ++chunk) {
         if (!mc_case("sweep32 %s %s range patterns %05x000..%05xfff", TYPE_NAME[rt], be ? "BE" : "LE", chunk, chunk))
@@ -473,9 +1327,10 @@ sweep32(RegisterType rt, bool be)
         }
         bool ok = true;
         long nacc = 0;
+        const RegisterValue *st = NULL;
         for (uint32_t lo = 0; lo < (1u << 20) && ok; ++lo) {
             bool accd;
-            ok = one_set(rt, &s.r[1], rt, ((uint64_t)chunk << 20) | lo, true, &accd);
+            ok = one_set(rt, &s.r[1], rt, ((uint64_t)chunk << 20) | lo, true, st, &accd);
             nacc += accd;
         }
         mc_end(true, nacc == 0 ? "sweep-none-accepted" : nacc == (1 << 20) ? "sweep-all-accepted" : "sweep-mixed");
@@ -499,6 +1354,9 @@ main(int argc, char **argv)
                       && ref_storable(REG_TYPE_FLOAT32, 0x80000000) && ref_storable(REG_TYPE_FLOAT32, 0x00800000),
                   "f32 classes");
     }
+    make_stales();
+    MC_ANCHOR(!strcmp(ST[0].name, "fill-ff") && !strcmp(ST[4].name, "was-u32=ffffffff") && !strcmp(ST[17].name, "was-u64=0123456789abcdef"),
+              "stale object table order");
     small_tables();
     static struct cfg cfgs[64];
     int ci = 0;
@@ -509,14 +1367,26 @@ main(int argc, char **argv)
                 for (int i = 0; i < n; ++i)
                     run_config((RegisterType)t, be, cb, &cfgs[i], ci++);
             }
+    ci = 0;
+    for (int t = 0; t < 8; ++t)
+        for (int be = 0; be < 2; ++be)
+            for (int cb = 0; cb < 2; ++cb) {
+                const int n = make_cfgs((RegisterType)t, cfgs);
+                for (int i = 0; i < n; ++i) {
+                    run_stale((RegisterType)t, be, cb, &cfgs[i], ci);
+                    if (mc_thorough() && ref_words((RegisterType)t) == 1)
+                        run_stale16((RegisterType)t, be, cb, &cfgs[i], ci);
+                    ci++;
+                }
+            }
+    run_geometries();
+    run_histories();
     if (mc_thorough()) {
         static const RegisterType T32[] = { REG_TYPE_UINT32, REG_TYPE_SINT32, REG_TYPE_FLOAT32 };
         for (int i = 0; i < 3; ++i)
             for (int be = 0; be < 2; ++be)
                 sweep32(T32[i], be);
     }
-    mc_finish(true, mc_thorough()
-                        ? "8 types x LE/BE x mem/cb x constraint configurations x (handles, type mismatches, all 16-bit values, ordered pairs over the closed value set) + all 2^32 patterns of u32/s32/f32 under a range constraint x LE/BE"
-                        : "8 types x LE/BE x mem/cb x constraint configurations x (handles, type mismatches, all 16-bit values, ordered pairs over the closed value set)");
+    mc_finish(true, mc_thorough() ? BOUND_THOROUGH : BOUND_QUICK);
     return 0;
 }
